@@ -9,7 +9,8 @@
 //!   flag `r` also the runtime-term printer (`to_mainline` + core::pretty) text fixpoint.
 //!   -> `P` (source does not parse) | `OK <n_nodes>` | `V <kind> <dump of the original tree> <printed> <detail>`
 //! * `build <sexp>`   build a real `Ast` from the s-expression, print it, lex the output
-//!   -> `<tokens> <status> <printed>` with status `OK | RF | TD | NF | WS | ERR:<msg>`
+//!   -> `<tokens> <status> <printed> <detail> <dump of the re-parsed tree | NONE>` with status
+//!   `OK | RF | TD | NF | WS | ERR:<msg>`
 //! * `parse <source>` -> `<tokens> <dump>` | `P <msg>`
 use nickel_lang_parser::{
     ErrorTolerantParser,
@@ -23,7 +24,7 @@ use nickel_lang_parser::{
 };
 use std::io::{BufRead, Write};
 use std::panic::{AssertUnwindSafe, catch_unwind};
-use verif_harness::c14::{Builder, DumpOpts, Sx, dump_term, tokens};
+use verif_harness::c14::{Builder, DumpOpts, Sx, dump_term, tokens, tokens_keep_empty};
 use verif_harness::eval::{Opts, run, unescape};
 
 fn escape(s: &str) -> String {
@@ -156,13 +157,13 @@ fn do_rt(flags: &str, dir: &str, src: &str) -> String {
 fn do_build(sx: &str) -> String {
     let x = match Sx::parse(sx) {
         Ok(x) => x,
-        Err(e) => return format!("\tERR:sexp {e}\t"),
+        Err(e) => return format!("\tERR:sexp {e}\t\t\tNONE"),
     };
     let alloc = AstAlloc::new();
     let b = Builder { alloc: &alloc };
     let ast = match b.term(&x) {
         Ok(a) => a,
-        Err(e) => return format!("\tERR:build {}\t", escape(&e)),
+        Err(e) => return format!("\tERR:build {}\t\t\tNONE", escape(&e)),
     };
     let d0 = dump_term(&ast, NOKIND).show();
     let p = print(&ast, 80);
@@ -174,14 +175,29 @@ fn do_build(sx: &str) -> String {
         Ok(_) => ("OK".to_string(), String::new()),
         Err((kind, _, detail)) => (kind, detail),
     };
-    format!("{}\t{}\t{}\t{}", escape(&toks), status, escape(&p), escape(&detail))
+    // what the real parser makes of the printed text (for the tie with the model's parser)
+    let reparsed = {
+        let alloc2 = AstAlloc::new();
+        match parse(&alloc2, &p) {
+            Ok(a) => dump_term(&a, NOKIND).show(),
+            Err(_) => "NONE".to_string(),
+        }
+    };
+    format!(
+        "{}\t{}\t{}\t{}\t{}",
+        escape(&toks),
+        status,
+        escape(&p),
+        escape(&detail),
+        escape(&reparsed)
+    )
 }
 
 fn do_parse(src: &str) -> String {
     let alloc = AstAlloc::new();
     match parse(&alloc, src) {
         Ok(ast) => {
-            let toks = tokens(src).unwrap_or_else(|e| format!("LEXERR {e}"));
+            let toks = tokens_keep_empty(src).unwrap_or_else(|e| format!("LEXERR {e}"));
             format!("{}\t{}", escape(&toks), escape(&dump_term(&ast, NOKIND).show()))
         }
         Err(e) => format!("P\t{}", escape(&e)),
@@ -220,7 +236,7 @@ fn main() {
                     .unwrap_or_default();
                 // keep the field layout of the mode
                 if line.starts_with("build") {
-                    format!("\tPANIC\t\t{}", escape(&msg))
+                    format!("\tPANIC\t\t{}\tNONE", escape(&msg))
                 } else {
                     format!("V\tPANIC\t\t\t{}", escape(&msg))
                 }
